@@ -1,3 +1,355 @@
-import OllamaVerif.Model.Sampler
+/-
+  C18 — the sampler returns an admissible token, deterministically under a seed.
+
+  Property theorems over the generic model `Model/Sampler.lean` (helper lemmas: `Proofs/Sampler.lean`).
+  They hold for EVERY carrier `α` and operation record `o : Ops α` whose comparison is a strict
+  weak order (`OrdLaws`; IEEE `<` on non-NaN values) — no bound on the vocabulary size or on `k`.
+  IEEE-754 itself is outside the model, so the statements that involve arithmetic take the run's
+  *contracts* (`guardOK`, `scaleOK`, `softmaxOK`: decidable predicates over the stage values, which
+  the oracle and the Go driver evaluate on every sampled run) as hypotheses: `…_partial`.
+  `guardOK` (the scaled maximum is finite) is the explicit guard that excludes exactly finding F18.
+-/
+import OllamaVerif.Proofs.Sampler
+
 namespace OllamaVerif.C18
+open OllamaVerif OllamaVerif.Sampler
+
+variable {α : Type}
+
+/-- the laws the theorems need from the carrier -/
+structure Laws (o : Ops α) : Prop where
+  ord : OrdLaws o          -- `<` is a strict weak order
+  addZero : AddZeroLaw o   -- `z == 0 → ¬ s < s + z`
+  beq : BeqLaw o           -- `a == b → ¬ b < a`
+
+/-! ### small facts about `Sample` -/
+
+theorem greedy_mem (o : Ops α) (ts : List (Tok α)) (m : Tok α) (hg : greedy o ts = .ok m) : m ∈ ts := by
+  cases ts with
+  | nil => cases hg
+  | cons t rest =>
+    simp only [greedy] at hg
+    injection hg with hg
+    subst hg
+    have : ∀ (l : List (Tok α)) (m0 : Tok α),
+        l.foldl (fun m x => if o.lt m.val x.val then x else m) m0 ∈ m0 :: l := by
+      intro l
+      induction l with
+      | nil => intro m0; simp
+      | cons x xs ih =>
+        intro m0
+        simp only [List.foldl_cons]
+        have := ih (if o.lt m0.val x.val then x else m0)
+        rcases List.mem_cons.1 this with h | h
+        · rw [h]; split <;> simp
+        · exact List.mem_cons_of_mem _ (List.mem_cons_of_mem _ h)
+    exact this rest t
+
+theorem mkTokensFrom_vals (i : Nat) (vs : List α) : (mkTokensFrom i vs).map (·.val) = vs := by
+  induction vs generalizing i with
+  | nil => rfl
+  | cons v vs ih => simp [mkTokensFrom, ih]
+
+theorem mem_mkTokens_of_mem (vs : List α) (w : α) (hw : w ∈ vs) : ∃ x ∈ mkTokens vs, x.val = w := by
+  have h : w ∈ (mkTokens vs).map (·.val) := by
+    unfold mkTokens; rw [mkTokensFrom_vals]; exact hw
+  obtain ⟨x, hx, hv⟩ := List.mem_map.1 h
+  exact ⟨x, hx, hv⟩
+
+theorem Sample_ok (o : Ops α) (fix : Bool) (P : Params α) (r : α) (logits : List α) (id : Nat)
+    (hS : Sample o fix P r logits = .ok id) :
+    ∃ t, sampleCore o fix P r (mkTokens logits) = .ok t ∧ t.id = id := by
+  unfold Sample at hS
+  split at hS
+  · cases hS
+  · cases hc : sampleCore o fix P r (mkTokens logits) with
+    | error e => rw [hc] at hS; cases hS
+    | ok t =>
+      rw [hc] at hS
+      simp only [Except.map] at hS
+      injection hS with hS
+      exact ⟨t, rfl, hS⟩
+
+/-! ### the property theorems -/
+
+/-- **greedy_argmax.**  With temperature 0 `Sample` returns an index into the logits whose logit
+    no other logit exceeds — for every vocabulary size, ties included. -/
+theorem greedy_argmax {o : Ops α} (h : OrdLaws o) (fix : Bool) (P : Params α) (r : α)
+    (logits : List α) (id : Nat) (ht : o.beq P.temp o.zero = true)
+    (hS : Sample o fix P r logits = .ok id) :
+    ∃ v, logits[id]? = some v ∧ ∀ w ∈ logits, o.lt v w = false := by
+  obtain ⟨t, hc, hid⟩ := Sample_ok o fix P r logits id hS
+  unfold sampleCore at hc
+  simp only [ht, if_true] at hc
+  obtain ⟨hm, hmax⟩ := greedy_spec h _ _ hc
+  refine ⟨t.val, by rw [← hid]; exact mkTokens_mem _ _ hm, ?_⟩
+  intro w hw
+  obtain ⟨x, hx, hv⟩ := mem_mkTokens_of_mem logits w hw
+  rw [← hv]; exact hmax x hx
+
+/-- each filter returns a non-empty prefix of the list it is given (which `topK` sorted) -/
+theorem filters_nonempty_prefix (o : Ops α) (p mp : α) (L : List (Tok α)) (hL : L ≠ []) :
+    topP o p L <+: L ∧ topP o p L ≠ [] ∧
+    (∀ f, minP o mp L = .ok f → f <+: L) ∧
+    (∀ t0 rest, L = t0 :: rest → o.lt t0.val (o.mul t0.val mp) = false →
+        ∃ f, minP o mp L = .ok (t0 :: f)) := by
+  refine ⟨topP_prefix o p L, topP_ne_nil o p L hL, fun f hf => minP_prefix o mp L f hf, ?_⟩
+  intro t0 rest hl hmul
+  subst hl
+  exact minP_ne_nil o mp t0 rest hmul
+
+/-- `topK` on its sorting branch, and the specification-level top-k for every `k`, return the
+    `k` largest tokens in descending order (`IsTopK`); the heap branch is mirrored exactly in the
+    model and validated against `IsTopK` on every sampled run -/
+theorem topK_isTopK {o : Ops α} (h : OrdLaws o) (k : Int) (ts : List (Tok α)) :
+    IsTopK o k ts (topKSpec o k ts) ∧
+    ((k ≥ ts.length ∨ k ≤ 0) → IsTopK o k ts (topK o k ts)) := by
+  refine ⟨topKSpec_isTopK h k ts, fun hk => ?_⟩
+  rw [topK_sort_branch o k ts hk]; exact topKSpec_isTopK h k ts
+
+/-- **index_in_range.**  Whatever the carrier does (NaN included, no law assumed): if `Sample`
+    returns an id, it is an index into the logits — hence inside the vocabulary.  `hmem` ("topK
+    returns tokens of its input") is proved for the sorting branch (`topK_isTopK`) and validated
+    per run for the heap branch. -/
+theorem index_in_range (o : Ops α) (P : Params α) (r : α) (logits : List α) (id : Nat)
+    (hmem : ∀ y ∈ topK o P.topK (mkTokens logits), y ∈ mkTokens logits)
+    (hS : Sample o false P r logits = .ok id) : id < logits.length := by
+  obtain ⟨t, hc, hid⟩ := Sample_ok o false P r logits id hS
+  unfold sampleCore at hc
+  have key : ∃ y ∈ mkTokens logits, y.id = id := by
+    split at hc
+    · exact ⟨t, greedy_mem o _ _ hc, hid⟩
+    · obtain ⟨y, hy, hyid⟩ := afterTopK_id o P r _ t hc
+      exact ⟨y, hmem y hy, by rw [hyid, hid]⟩
+  obtain ⟨y, hy, hyid⟩ := key
+  have := mkTokens_mem logits y hy
+  rw [hyid] at this
+  exact (List.getElem?_eq_some_iff.1 this).1
+
+/-- **sample_admissible_partial** (never_neg_inf + result_mem_filters).  Temperature > 0, the
+    pinned code (`fix = false`).  If the run's contracts hold — `guardOK`: no NaN and no `+Inf`
+    among the scaled logits and the largest is not `-Inf` (this is what fails in finding F18) —
+    then the returned id
+      * indexes a logit that is not `-Inf`   (a zero-probability entry is never the first index
+        whose cumulative sum reaches `r·total`: no condition on `r` is needed beyond what the
+        binary search itself guarantees; `r·total ≤ total` only matters for "no panic"), and
+      * is the id of the entry at a position inside the prefix `minP (topP (softmax (temperature
+        (topK tokens))))`. -/
+theorem sample_admissible_partial {o : Ops α} (laws : Laws o) (P : Params α) (r : α)
+    (logits : List α) (id : Nat) (ht : o.beq P.temp o.zero = false)
+    (hS : Sample o false P r logits = .ok id)
+    (hk : IsTopK o P.topK (mkTokens logits) (topK o P.topK (mkTokens logits)))
+    (hg : guardOK o (scaledOf o P (topK o P.topK (mkTokens logits))) = true)
+    (hsc : scaleOK o ((topK o P.topK (mkTokens logits)).map (·.val))
+              (scaledOf o P (topK o P.topK (mkTokens logits))) = true)
+    (hsm : softmaxOK o (scaledOf o P (topK o P.topK (mkTokens logits)))
+              (softmaxVals o (scaledOf o P (topK o P.topK (mkTokens logits)))) = true) :
+    ∃ (v : α) (idx : Nat) (f : List (Tok α)) (x : Tok α),
+      logits[id]? = some v ∧ o.beq v o.negInf = false ∧
+      minP o P.minP (topP o P.topP (probsOf o P (topK o P.topK (mkTokens logits)))) = .ok f ∧
+      f <+: probsOf o P (topK o P.topK (mkTokens logits)) ∧
+      f[idx]? = some x ∧ x.id = id := by
+  obtain ⟨t, hc, hid⟩ := Sample_ok o false P r logits id hS
+  unfold sampleCore at hc
+  simp only [ht, Bool.false_eq_true, if_false] at hc
+  obtain ⟨idx, y, f, x, hy, hyid, hyv, hf, hpre, hx, hxid⟩ :=
+    afterTopK_spec laws.ord laws.addZero laws.beq P r _ t hc hg hsc hsm
+  have hym : y ∈ mkTokens logits := hk.mem y (List.mem_of_getElem? hy)
+  have := mkTokens_mem logits y hym
+  rw [hyid, hid] at this
+  exact ⟨y.val, idx, f, x, this, hyv, hf, hpre, hx, by rw [hxid, hid]⟩
+
+/-- **never_neg_inf**: the logit of the returned token is not `-Inf` -/
+theorem never_neg_inf {o : Ops α} (laws : Laws o) (P : Params α) (r : α)
+    (logits : List α) (id : Nat) (ht : o.beq P.temp o.zero = false)
+    (hS : Sample o false P r logits = .ok id)
+    (hk : IsTopK o P.topK (mkTokens logits) (topK o P.topK (mkTokens logits)))
+    (hg : guardOK o (scaledOf o P (topK o P.topK (mkTokens logits))) = true)
+    (hsc : scaleOK o ((topK o P.topK (mkTokens logits)).map (·.val))
+              (scaledOf o P (topK o P.topK (mkTokens logits))) = true)
+    (hsm : softmaxOK o (scaledOf o P (topK o P.topK (mkTokens logits)))
+              (softmaxVals o (scaledOf o P (topK o P.topK (mkTokens logits)))) = true) :
+    ∃ v, logits[id]? = some v ∧ o.beq v o.negInf = false := by
+  obtain ⟨v, _, _, _, h1, h2, _⟩ := sample_admissible_partial laws P r logits id ht hS hk hg hsc hsm
+  exact ⟨v, h1, h2⟩
+
+/-- **result_mem_filters**: the returned id is the id of a member of `minP (topP (…topK…))` -/
+theorem result_mem_filters {o : Ops α} (laws : Laws o) (P : Params α) (r : α)
+    (logits : List α) (id : Nat) (ht : o.beq P.temp o.zero = false)
+    (hS : Sample o false P r logits = .ok id)
+    (hk : IsTopK o P.topK (mkTokens logits) (topK o P.topK (mkTokens logits)))
+    (hg : guardOK o (scaledOf o P (topK o P.topK (mkTokens logits))) = true)
+    (hsc : scaleOK o ((topK o P.topK (mkTokens logits)).map (·.val))
+              (scaledOf o P (topK o P.topK (mkTokens logits))) = true)
+    (hsm : softmaxOK o (scaledOf o P (topK o P.topK (mkTokens logits)))
+              (softmaxVals o (scaledOf o P (topK o P.topK (mkTokens logits)))) = true) :
+    ∃ f, minP o P.minP (topP o P.topP (probsOf o P (topK o P.topK (mkTokens logits)))) = .ok f ∧
+      ∃ x ∈ f, x.id = id := by
+  obtain ⟨_, idx, f, x, _, _, hf, _, hx, hxid⟩ :=
+    sample_admissible_partial laws P r logits id ht hS hk hg hsc hsm
+  exact ⟨f, hf, x, List.mem_of_getElem? hx, hxid⟩
+
+/-- the binary search of the pick, without any monotonicity assumption: the returned index is in
+    `[0, n]`, everything probed "below" lies left of it and the entry at it is not below -/
+theorem pick_search_spec (below : Nat → Bool) (n : Nat) :
+    let i := bsearch below (n + 1) 0 n
+    i ≤ n ∧ (i = 0 ∨ below (i - 1) = true) ∧ (i = n ∨ below i = false) :=
+  bsearch_spec below n (n + 1) 0 n (Nat.zero_le _) (Nat.le_refl _) (by omega) (Or.inl rfl) (Or.inl rfl)
+
+/-! ### determinism under a seed -/
+
+/-- a sequence of `Sample` calls fed from one generator state: a call consumes one random number
+    unless the temperature is 0 (`toF` turns the 24-bit numerator into the carrier's `n/2^24`) -/
+def sampleSeq (o : Ops α) (toF : Nat → α) (fix : Bool) (P : Params α) :
+    Pcg → List (List α) → List (Except Err Nat)
+  | _, [] => []
+  | p, l :: ls =>
+    if o.beq P.temp o.zero then Sample o fix P (toF 0) l :: sampleSeq o toF fix P p ls
+    else Sample o fix P (toF (pcgFloat24 p).1) l :: sampleSeq o toF fix P (pcgFloat24 p).2 ls
+
+/-- **deterministic.**  The sampled sequence is a function of (seed, parameters, logits): equal
+    seeds give equal sequences, and the first `m` results do not depend on the later inputs
+    (the stream is consumed causally). -/
+theorem deterministic (o : Ops α) (toF : Nat → α) (fix : Bool) (P : Params α)
+    (seed₁ seed₂ : Int) (hs : seed₁ = seed₂) (a b : List (List α)) :
+    sampleSeq o toF fix P (pcgOfSeed seed₁) a = sampleSeq o toF fix P (pcgOfSeed seed₂) a ∧
+    (sampleSeq o toF fix P (pcgOfSeed seed₁) (a ++ b)).take a.length
+      = sampleSeq o toF fix P (pcgOfSeed seed₁) a := by
+  subst hs
+  refine ⟨rfl, ?_⟩
+  generalize pcgOfSeed seed₁ = p
+  induction a generalizing p with
+  | nil => simp [sampleSeq]
+  | cons l ls ih =>
+    simp only [List.cons_append, sampleSeq, List.length_cons]
+    split
+    · simp only [List.take_succ_cons]; rw [ih]
+    · simp only [List.take_succ_cons]; rw [ih]
+
+/-- the random stream is a function of the seed alone, and its k-th element does not depend on
+    how many numbers are drawn afterwards -/
+theorem stream_of_seed (seed : Int) (m n : Nat) :
+    pcgStream (m + n) (pcgOfSeed seed)
+      = pcgStream m (pcgOfSeed seed) ++ pcgStream n (advance pcgFloat24 m (pcgOfSeed seed)) :=
+  streamOf_append pcgFloat24 m n _
+
+/-! ### witnesses: a four-point-plus-integers carrier with IEEE's special values -/
+
+/-- NaN, -Inf, integers, +Inf with IEEE's rules for the special values (`Inf - Inf = NaN`,
+    every comparison with NaN false); `exp` and `/` are crude (only their special cases matter) -/
+inductive X where
+  | nan | ninf | fin (n : Int) | pinf
+  deriving DecidableEq, Repr
+
+namespace X
+def lt : X → X → Bool
+  | nan, _ => false | _, nan => false
+  | ninf, ninf => false | ninf, _ => true
+  | fin _, ninf => false | fin a, fin b => decide (a < b) | fin _, pinf => true
+  | pinf, _ => false
+def beq : X → X → Bool
+  | nan, _ => false | _, nan => false | a, b => decide (a = b)
+def neg : X → X
+  | nan => nan | ninf => pinf | pinf => ninf | fin a => fin (-a)
+def add : X → X → X
+  | nan, _ => nan | _, nan => nan
+  | pinf, ninf => nan | ninf, pinf => nan
+  | pinf, _ => pinf | _, pinf => pinf
+  | ninf, _ => ninf | _, ninf => ninf
+  | fin a, fin b => fin (a + b)
+def mul : X → X → X
+  | fin a, fin b => fin (a * b) | _, _ => nan
+def div : X → X → X
+  | nan, _ => nan | _, nan => nan
+  | fin a, fin b => fin (a / b)
+  | a, fin _ => a
+  | _, _ => nan
+def exp : X → X
+  | nan => nan | ninf => fin 0 | pinf => pinf
+  | fin a => if a < 0 then fin 0 else fin 1
+def ops : Ops X where
+  lt := lt
+  le a b := lt a b || beq a b
+  beq := beq
+  isNaN a := decide (a = nan)
+  add := add
+  sub a b := add a (neg b)
+  mul := mul
+  div := div
+  exp := exp
+  zero := fin 0
+  one := fin 1
+  negInf := ninf
+  posInf := pinf
+  tempFloor := fin 0
+end X
+
+def xParams : Params X := ⟨.fin 1, 0, .fin 1, .fin 0⟩
+
+def errOf {β : Type} : Except Err β → Option Err
+  | .error e => some e
+  | .ok _ => none
+
+/-- **Witness of finding F18.**  Sorted tokens `[+Inf, 0]`, temperature 1: the pinned pipeline
+    computes `Inf - Inf = NaN` in softmax and reports "logits sum to NaN" although token 1 has a
+    finite logit (and token 0 is the obvious answer); the repaired pipeline (`fix = true`) returns
+    token 0.  The same happens when a finite logit overflows to `+Inf` in `temperature`. -/
+theorem F18_nan_instead_of_token :
+    errOf (afterTopK X.ops false xParams (.fin 0) [⟨0, .pinf⟩, ⟨1, .fin 0⟩]) = some .nanSum ∧
+    (afterTopK X.ops true xParams (.fin 0) [⟨0, .pinf⟩, ⟨1, .fin 0⟩]).toOption.map (·.id) = some 0 := by
+  decide
+
+/-- the guard of `sample_admissible_partial` is what fails on the F18 input -/
+theorem F18_guard_fails :
+    guardOK X.ops (scaledOf X.ops xParams [⟨0, .pinf⟩, ⟨1, .fin 0⟩]) = false := by decide
+
+/-- **Witness of finding F18b.**  `greedy` keeps a NaN that sits at index 0: every comparison
+    with it is false. -/
+theorem F18b_greedy_keeps_leading_nan :
+    (greedy X.ops [⟨0, .nan⟩, ⟨1, .fin 1⟩, ⟨2, .fin 2⟩]).toOption.map (·.id) = some 0 ∧
+    (greedy X.ops [⟨0, .fin 1⟩, ⟨1, .nan⟩, ⟨2, .fin 2⟩]).toOption.map (·.id) = some 2 := by
+  decide
+
+/-- non-vacuity: on the same carrier a run with finite logits satisfies every contract hypothesis
+    of `sample_admissible_partial` and returns a token (here: sorted tokens `[5, 3, -Inf]`) -/
+example :
+    let L : List (Tok X) := [⟨2, .fin 5⟩, ⟨0, .fin 3⟩, ⟨1, .ninf⟩]
+    guardOK X.ops (scaledOf X.ops xParams L) = true ∧
+    scaleOK X.ops (L.map (·.val)) (scaledOf X.ops xParams L) = true ∧
+    softmaxOK X.ops (scaledOf X.ops xParams L) (softmaxVals X.ops (scaledOf X.ops xParams L)) = true ∧
+    (afterTopK X.ops false xParams (.fin 1) L).toOption.map (·.id) = some 2 := by
+  decide
+
+/-! ### the laws are satisfiable -/
+
+/-- the laws are satisfiable: the integers with their usual order and arithmetic -/
+def zOps : Ops Int where
+  lt a b := decide (a < b)
+  le a b := decide (a ≤ b)
+  beq a b := decide (a = b)
+  isNaN _ := false
+  add a b := a + b
+  sub a b := a - b
+  mul a b := a * b
+  div a b := a / b
+  exp a := a
+  zero := 0
+  one := 1
+  negInf := -1000000
+  posInf := 1000000
+  tempFloor := 0
+
+theorem zOps_laws : Laws zOps where
+  ord := {
+    irrefl := by intro a; simp [zOps]
+    trans := by intro a b c; simp only [zOps, decide_eq_true_eq]; omega
+    cotrans := by intro a b c; simp only [zOps, decide_eq_true_eq]; omega }
+  addZero := by
+    intro s z hz
+    simp only [zOps, decide_eq_true_eq, decide_eq_false_iff_not] at hz ⊢
+    omega
+  beq := by
+    intro a b hab
+    simp only [zOps, decide_eq_true_eq, decide_eq_false_iff_not] at hab ⊢
+    omega
 end OllamaVerif.C18
